@@ -391,13 +391,65 @@ func registerDeltaFixed() {
 			deltaHistory(c, lists, all)
 		}})
 
+	// long value lists (the enumerated ones stop at 4-5 values): lengths around powers of two x 5 value patterns
+	register(family{name: "delta.long",
+		enum: func(th bool, emit func(p ...int64) bool) {
+			for _, n := range []int64{63, 64, 65, 127, 128, 129, 255, 256, 257, 511, 512, 513, 1000, 4097} {
+				for pat := int64(0); pat < 5; pat++ {
+					for r := int64(0); r < 2; r++ {
+						if !emit(r, n, pat) {
+							return
+						}
+					}
+				}
+			}
+		},
+		run: func(c *ctx) {
+			n, pat := int(c.p[1]), c.p[2]
+			vals := make([]int32, n)
+			x := uint32(12345)
+			for i := range vals {
+				switch pat {
+				case 0: // constant
+					vals[i] = 7
+				case 1: // +1 steps
+					vals[i] = int32(i)
+				case 2: // alternating extremes
+					if i%2 == 0 {
+						vals[i] = 2147483647
+					} else {
+						vals[i] = -2147483648
+					}
+				case 3: // growing steps (the common width grows along the list)
+					vals[i] = int32(i * i * 3)
+				case 4: // fixed pseudo-random walk (xorshift, no clock, no seed)
+					x ^= x << 13
+					x ^= x >> 17
+					x ^= x << 5
+					vals[i] = int32(x)
+				}
+			}
+			c.text = fmt.Sprintf("delta long list n=%d pattern=%d resetFirst=%v", n, pat, c.p[0] == 1)
+			c.nontrivial = true
+			deltaFresh(c, vals, c.p[0] == 1)
+		}})
+
 	register(family{name: "fo.list",
 		enum: func(th bool, emit func(p ...int64) bool) {
-			// kind 0: curated list index ; kind 1: non-decreasing multiset of OA (<=4) ; kind 2: any order (<=3), ensureIncreasing=false
+			// kind 3: long list index (OLong) ; kind 0: curated list index ; kind 1: non-decreasing multiset of OA (<=4) ; kind 2: any order (<=3), ensureIncreasing=false
 			for i := range OCurated {
 				for api := int64(0); api < 3; api++ {
 					for sfx := int64(0); sfx < 2; sfx++ {
 						if !emit(0, api, sfx, int64(i)) {
+							return
+						}
+					}
+				}
+			}
+			for i := range OLong {
+				for api := int64(0); api < 3; api++ {
+					for sfx := int64(0); sfx < 2; sfx++ {
+						if !emit(3, api, sfx, int64(i)) {
 							return
 						}
 					}
@@ -430,10 +482,16 @@ func registerDeltaFixed() {
 			var offs []int
 			if kind == 0 {
 				offs = OCurated[c.p[3]]
+			} else if kind == 3 {
+				offs = OLong[c.p[3]]
 			} else {
 				offs = offsetsOf(c.p[3:])
 			}
-			c.text = fmt.Sprintf("offsets %v api=%d increasing=%v suffix=%v", offs, api, kind != 2, sfx)
+			if kind == 3 {
+				c.text = fmt.Sprintf("%d offsets 0..%d (evenly spaced) api=%d suffix=%v", len(offs), offs[len(offs)-1], api, sfx)
+			} else {
+				c.text = fmt.Sprintf("offsets %v api=%d increasing=%v suffix=%v", offs, api, kind != 2, sfx)
+			}
 			c.nontrivial = len(offs) >= 2
 			foFresh(c, offs, api, kind != 2, sfx)
 		}})
